@@ -351,9 +351,18 @@ func (j *jsonJudge) judgeDocument(r *gen.RNG) {
 }
 
 func runC13(c *Ctx) {
-	c.Parallel("marshal", ref.NearestEven, func(sh *mon.Shard, r *gen.RNG) {
+	// the marshalled text denotes d exactly, so decoding it must give d under every DefaultRoundingMode
+	for mdef := ref.Mode(0); mdef < ref.NumModes; mdef++ {
+		runC13Marshal(c, mdef)
+	}
+	runC13Unmarshal(c)
+}
+
+func runC13Marshal(c *Ctx, def ref.Mode) {
+	c.Parallel("marshal", def, func(sh *mon.Shard, r *gen.RNG) {
 		j := &jsonJudge{ctx: c, sh: sh}
-		n := c.N(30000, 300000)
+		n := c.N(30000, 300000) / 6
+		sh.Cell(fmt.Sprintf("marshal-default-mode/%d", def))
 		for i := 0; i < n; i++ {
 			switch i % 6 {
 			case 0:
@@ -383,6 +392,9 @@ func runC13(c *Ctx) {
 			}
 		}
 	})
+}
+
+func runC13Unmarshal(c *Ctx) {
 	for def := ref.Mode(0); def < ref.NumModes; def++ {
 		c.Parallel("unmarshal", def, func(sh *mon.Shard, r *gen.RNG) {
 			j := &jsonJudge{ctx: c, sh: sh}
@@ -417,6 +429,7 @@ func runC13(c *Ctx) {
 	}
 	c.Col.Res.Targets = append(c.Col.Res.Targets,
 		mon.Target{Prefix: "marshal/", Total: 3, Min: 3},
+		mon.Target{Prefix: "marshal-default-mode/", Total: 6, Min: 6},
 		mon.Target{Prefix: "unmarshal/", Total: 8, Min: 7},
 		mon.Target{Prefix: "document/", Total: 2, Min: 2},
 	)
